@@ -195,7 +195,7 @@ def run_case(ctx, mr, case):
                 if raw != want:
                     ctx.diff('oracle', 'sd-raw-after-write', dict(case, path=p), want.hex()[:40], raw.hex()[:40], f'console-format bytes of {rel!r} are not the encryption of the view')
                 # the other ways PyFilesystem offers of reading and writing a file through the same view
-                for api in ('open', 'readbytes', 'writebytes', 'appendbytes', 'upload', 'download', 'writefile', 'hash', 'append-after-seek', 'append-after-read', 'appendtext'):
+                for api in ('open', 'readbytes', 'writebytes', 'appendbytes', 'upload', 'download', 'writefile', 'hash', 'append-after-seek', 'append-after-read', 'appendtext', 'append-truncate-append'):
                     ctx.stat('api_' + api)
                     try:
                         if api == 'open':
@@ -236,6 +236,18 @@ def run_case(ctx, mr, case):
                                 fh.write(more)
                                 fh.write(more[:3])
                             files[rel] = files[rel] + more + more[:3]
+                            got = base.readbytes(f'{id0}/{id1}{rel}')
+                        elif api == 'append-truncate-append':
+                            # the end moves under an append handle (truncate through the handle itself): the next append lands at the new end,
+                            # with the keystream of the new end (a generator of its own: the streams of the older scenarios stay as they were)
+                            r2 = random.Random(len(files[rel]) * 31 + len(rel))
+                            more, more2 = pyenv.rbytes(r2, r2.choice([24, 40])), pyenv.rbytes(r2, r2.choice([3, 16, 21]))
+                            with fsview.openbin(p, 'a+') as fh:
+                                fh.write(more)
+                                k = r2.choice([0, 5, 16, 17, max(0, len(files[rel]) + len(more) - 9)])
+                                fh.truncate(k)
+                                fh.write(more2)
+                            files[rel] = (files[rel] + more)[:k] + more2
                             got = base.readbytes(f'{id0}/{id1}{rel}')
                         elif api == 'appendtext':
                             # text mode is not offered; if it is refused nothing is written, if it is served the text arrives encrypted
